@@ -95,3 +95,49 @@ func vR_C03_read_eof() string {
 
 var _ = runtime.Gosched
 var _ = time.Now
+
+// ---- H3.3 UDP: the close request is acted on when it ARRIVES, not in sequence ----
+//
+// The peer wrote data (segments up to sequence number c-1), the writes
+// succeeded, then it closed: its close request carries sequence number c.  On
+// UDP the close request may overtake data segments (reordering, loss followed
+// by retransmission).  Property: the reading application observes a clean
+// io.EOF only if every segment below c was delivered to it first.
+//
+// region = "segments below c are still missing when the close request is
+// input".  The main harness covers everything outside the region of an open
+// known finding; the region itself is a harness of its own.
+func vCloseOrder(onlyRegion bool) {
+	isClient := vNondetBool("isClient")
+	s := vNewSession(7, isClient, common.PacketTransport)
+	s.forwardStateTo(sessionAttached)
+	s.forwardStateTo(sessionEstablished)
+	r0 := vNondetU32("nextRecv")
+	vAssume(r0 < 0xfffffff0)
+	s.nextRecv.Store(r0)
+	c := vNondetU32("close.seq")
+	vAssume(c >= r0 && c < r0+8)
+	if vNondetBool("gap") { // a data segment received ahead of a gap waits in the receive buffer
+		b := vDataSeg("buf", !isClient, 7, 1)
+		vAssume(vSeq(b) > r0 && vSeq(b) < c)
+		s.recvBuf.Insert(b)
+	}
+	missing := c > r0
+	if onlyRegion {
+		vAssume(missing)
+	} else if vKnown("C03-i") {
+		vAssume(!missing)
+	}
+	seg := &segment{metadata: &sessionStruct{baseStruct: baseStruct{protocol: uint8(closeSessionRequest)}, sessionID: 7, seq: c}, transport: common.PacketTransport}
+	vOutputs = nil
+	err := s.input(seg)
+	vAssert(err == nil, "the close request is processed")
+	buf := make([]byte, 4)
+	n, rerr := s.Read(buf)
+	if rerr == io.EOF && n == 0 {
+		vAssert(!missing, "a clean end-of-stream is observed only after every segment the peer sent before its close request was delivered")
+	}
+}
+
+func vH_C03_udp_close_order()         { vCloseOrder(false) }
+func vH_C03_udp_close_overtakes_data() { vCloseOrder(true) }
